@@ -150,3 +150,14 @@ claim("C09",
       "field names see the outer scope only; a `for` source does not see its own variable); every table row must be analysed.",
       "Trusted: rustc MIR; the scoping table transcribed from the Jsonnet specification in rules/c09.py. The evaluator's run-time environments are not compared.",
       "DESIGN.md §2 C09, Appendix C")
+claim("C04",
+      "thunk typestate decision tables + who-may-mutate; IRFLOW whole-crate field-based flow graph of IR references with must-pass-through-thunk reachability",
+      "Decides the mechanism behind C04, not the rewrite-invariance consequence: (R1) ThunkData.state is private and mutated only by switch_state "
+      "(Pending -> InProgress handing the payload out once; Done/InProgress untouched) and set_done (requires InProgress, writes Done), set_done "
+      "is called only by the GotThunk arm and the frame carries the very thunk that was taken: each delayed expression runs at most once; (R2) "
+      "every lazy IR position (local binds, array items, positional/named arguments, parameter defaults, object fields and locals, comprehension "
+      "bodies) reaches State::Expr only through a PendingThunk node in the whole-crate flow graph (closures bound through generic Fn parameters "
+      "included), and does reach one: unused parts are never run; (R3) arguments are forced before a call only under `tailstrict`.",
+      "Trusted: rustc MIR; the laziness table transcribed from the Jsonnet specification (rules/c04.py:LAZY). The flow graph is field-based and "
+      "flow-insensitive (sound over-approximation of stored data). Builtins' internal evaluation order is not decided.",
+      "DESIGN.md §2 C04")
